@@ -60,10 +60,23 @@ func ruleEANCheckValue(c *Ctx) {
 		k++
 		content, sum := call.Common().Args[1], call.Common().Args[3]
 		cases := pairCases(content, sum)
+		if hc := helperPairCases(c.P, fn, call, content, sum); hc != nil {
+			cases = hc
+		}
 		for ci, cs := range cases {
 			key := fmt.Sprintf("ean.EncodeWithColor/ctor#%d/path#%d", k, ci+1)
 			// feasibility: can the content on this path have a length the constructor is reached with?
-			if cs.pred != nil {
+			if cs.infeasible != "" {
+				c.Check(R, key, call.Pos(), true, "infeasible path or matching pair", "path infeasible: "+cs.infeasible)
+				continue
+			}
+			if cs.la != nil {
+				ls := cs.la.At(cs.content, cs.blk)
+				if lsDisjoint(ls, 8, 13) {
+					c.Check(R, key, call.Pos(), true, "infeasible path or matching pair", "path infeasible: content length "+ls.String()+" never 8/13")
+					continue
+				}
+			} else if cs.pred != nil {
 				ls := la.OnEdge(cs.content, cs.pred, cs.succIdx)
 				if lsDisjoint(ls, 8, 13) {
 					c.Check(R, key, call.Pos(), true, "infeasible path or matching pair", "path infeasible: content length "+ls.String()+" never 8/13")
@@ -83,6 +96,59 @@ type pairCase struct {
 	content, sum ssa.Value
 	pred         *ssa.BasicBlock
 	succIdx      int
+	// alternatives that are returns of a helper: length facts of the helper at the return
+	la         *LenAnalysis
+	blk        *ssa.BasicBlock
+	infeasible string
+}
+
+// helperPairCases: content and sum are two results of one call to an unexported helper of the
+// package: one (content, sum) pair per return of the helper (the results of one return belong
+// together). A return whose error result is non-nil is infeasible when the constructor call is
+// reached only after that error was found nil.
+func helperPairCases(p *Prog, fn *ssa.Function, ctor *ssa.Call, content, sum ssa.Value) []pairCase {
+	ec, ok1 := content.(*ssa.Extract)
+	es, ok2 := sum.(*ssa.Extract)
+	if !ok1 || !ok2 || ec.Tuple != es.Tuple {
+		return nil
+	}
+	hc, ok := ec.Tuple.(*ssa.Call)
+	if !ok {
+		return nil
+	}
+	cal := hc.Common().StaticCallee()
+	if cal == nil || !isRepoFunc(cal) || cal.Blocks == nil || cal.Pkg != fn.Pkg || cal.Object() == nil || cal.Object().Exported() {
+		return nil
+	}
+	// the error result, if the caller checks it before the constructor
+	errIdx := -1
+	res := cal.Signature.Results()
+	for i := 0; i < res.Len(); i++ {
+		if isErrorType(res.At(i).Type()) {
+			errIdx = i
+		}
+	}
+	errChecked := false
+	if errIdx >= 0 {
+		for _, r := range *hc.Referrers() {
+			if ex, ok := r.(*ssa.Extract); ok && ex.Index == errIdx {
+				n := NewNormer(p)
+				n.Bind[ex] = "err"
+				imp, _, _ := CondRelation(n.ReachCond(fn, nil, ctor.Block()), &Cond{Kind: CBool, Name: "Eq(err,nil)"})
+				errChecked = imp
+			}
+		}
+	}
+	la := NewLenAnalysis(cal)
+	var out []pairCase
+	for _, ret := range returnsOf(cal) {
+		pc := pairCase{content: ret.Results[ec.Index], sum: ret.Results[es.Index], la: la, blk: ret.Block()}
+		if errChecked && !isNilConst(ret.Results[errIdx]) {
+			pc.infeasible = "the helper returns an error here and the caller returns before the constructor"
+		}
+		out = append(out, pc)
+	}
+	return out
 }
 
 // pairCases splits (content, sum) into per-path pairs when both are phis of the same block.
@@ -94,7 +160,7 @@ func pairCases(content, sum ssa.Value) []pairCase {
 		var out []pairCase
 		for i, e := range ps.Edges {
 			p := ps.Block().Preds[i]
-			out = append(out, pairCase{content, e, p, succIndex(p, ps.Block())})
+			out = append(out, pairCase{content: content, sum: e, pred: p, succIdx: succIndex(p, ps.Block())})
 		}
 		return out
 	}
@@ -102,7 +168,7 @@ func pairCases(content, sum ssa.Value) []pairCase {
 		var out []pairCase
 		for i := range pc.Edges {
 			p := pc.Block().Preds[i]
-			out = append(out, pairCase{pc.Edges[i], ps.Edges[i], p, succIndex(p, pc.Block())})
+			out = append(out, pairCase{content: pc.Edges[i], sum: ps.Edges[i], pred: p, succIdx: succIndex(p, pc.Block())})
 		}
 		return out
 	}
@@ -110,11 +176,11 @@ func pairCases(content, sum ssa.Value) []pairCase {
 		var out []pairCase
 		for i, e := range pc.Edges {
 			p := pc.Block().Preds[i]
-			out = append(out, pairCase{e, sum, p, succIndex(p, pc.Block())})
+			out = append(out, pairCase{content: e, sum: sum, pred: p, succIdx: succIndex(p, pc.Block())})
 		}
 		return out
 	}
-	return []pairCase{{content, sum, nil, 0}}
+	return []pairCase{{content: content, sum: sum}}
 }
 
 func succIndex(p, s *ssa.BasicBlock) int {
@@ -421,59 +487,34 @@ func checkAccumulator(c *Ctx, R string, fn *ssa.Function, acc *ssa.Phi) {
 	}
 	// increments per toggle polarity
 	next := acc.Edges[backIdx]
-	var inner []*ssa.Phi
-	seen := map[ssa.Value]bool{}
-	var find func(v ssa.Value, d int)
-	find = func(v ssa.Value, d int) {
-		if seen[v] || d > 10 {
-			return
-		}
-		seen[v] = true
-		switch x := v.(type) {
-		case *ssa.Phi:
-			if x != acc && x != toggle {
-				inner = append(inner, x)
-				for _, e := range x.Edges {
-					find(e, d+1)
-				}
-			}
-		case *ssa.BinOp:
-			find(x.X, d+1)
-			find(x.Y, d+1)
-		case *ssa.Convert:
-			find(x.X, d+1)
-		}
-	}
-	find(next, 0)
-	if len(inner) != 1 {
-		c.Undecided(R, name+"/increment", acc.Pos(), fmt.Sprintf("expected one merge phi in the accumulator update, found %d", len(inner)))
-		return
-	}
-	ip := inner[0]
 	body := header.Succs[0]
-	for ei := range ip.Edges {
-		n := NewNormer(c.P)
-		n.Bind[acc] = "s"
-		n.Bind[digit] = "d"
-		n.Bind[toggle] = "T"
-		n.PhiChoice[ip] = ei
-		inc := pAdd(n.Norm(next), pAtom("s"), -1)
-		pred := ip.Block().Preds[ei]
-		cond := cAnd(n.ReachCond(fn, body, pred), n.EdgeCond(pred, ip.Block()))
-		T := &Cond{Kind: CBool, Name: "T"}
-		impT, _, _ := CondRelation(cond, T)
-		impNT, _, _ := CondRelation(cond, cNot(T))
-		var want string
+	n := NewNormer(c.P)
+	n.Root = fn
+	n.Bind[acc] = "s"
+	n.Bind[digit] = "d"
+	n.Bind[toggle] = "T"
+	T := &Cond{Kind: CBool, Name: "T"}
+	seenT, seenNT := false, false
+	for _, cs := range n.valueCases(fn, body, next, 0) {
+		inc := pAdd(cs.val, pAtom("s"), -1)
+		impT, _, _ := CondRelation(cs.cond, T)
+		impNT, _, _ := CondRelation(cs.cond, cNot(T))
+		var want, key string
 		switch {
 		case impT && !impNT:
-			want = "3*d"
+			want, key = "3*d", "T"
+			seenT = true
 		case impNT && !impT:
-			want = "d"
+			want, key = "d", "!T"
+			seenNT = true
 		default:
-			c.Undecided(R, fmt.Sprintf("%s/increment#%d", name, ei+1), ip.Pos(), "update path is not decided by the toggle: "+cond.String())
+			c.Undecided(R, name+"/increment", acc.Pos(), "an update of the sum is not decided by the toggle: "+cs.val.String()+" when "+cs.cond.String())
 			continue
 		}
-		c.Check(R, fmt.Sprintf("%s/increment#%d", name, ei+1), ip.Pos(), pEqual(inc, MustRef(want)), "s' - s = "+want+" when "+cond.String(), "s' - s = "+inc.String())
+		c.Check(R, fmt.Sprintf("%s/increment@%s", name, key), acc.Pos(), pEqual(inc, MustRef(want)), "s' - s = "+want+" when "+cs.cond.String(), "s' - s = "+inc.String())
+	}
+	if !seenT || !seenNT {
+		c.Check(R, name+"/increment", acc.Pos(), false, "one update for each toggle polarity", fmt.Sprintf("toggle set: %v, toggle clear: %v", seenT, seenNT))
 	}
 }
 
